@@ -815,6 +815,7 @@ fn check(id: &str, tier: &str) -> i32
             run_hist_plans(&mut rep, id, plans);
             rep.assume("realfs: the same rules text and /bin/sh commands are run by the real binary in a scratch directory; user actions are spaced by 2 ms so that modification times differ");
             crate::realbin::run_realfs(&mut rep, tier);
+            crate::realbin::symlink_target_probe(&mut rep);
         },
         "C17" =>
         {
@@ -870,8 +871,8 @@ fn check(id: &str, tier: &str) -> i32
             let mut cases: Vec<SchedCase> = schedeng::success_cases(tier);
             cases.extend(schedeng::failure_cases(tier));
             run_sched_plans(&mut rep, id, cases, phases_light(tier), Oracles::only(id));
-            rep.assume("real binary: the status lines printed by StandardPrinter are parsed from its standard output and compared with the model's, step by step (scenarios S3, S6, S10)");
-            crate::realbin::run_realfs_for(&mut rep, tier, "C20", vec![scen::s3_multi(), scen::s6_exec(), scen::s10_bundle()]);
+            rep.assume("real binary: the status lines printed by StandardPrinter are parsed from its standard output and compared with the model's, step by step (scenarios S3, S6, S10 and S8 with its failing and non-producing rules)");
+            crate::realbin::run_realfs_for(&mut rep, tier, "C20", vec![scen::s3_multi(), scen::s6_exec(), scen::s10_bundle(), scen::s8_failures()]);
         },
         "C03" =>
         {
@@ -980,6 +981,13 @@ fn replay_inner(path: &str) -> i32
     let r = &v["replay"];
     match r["engine"].as_str().unwrap_or("")
     {
+        "symlink" =>
+        {
+            let mut rep = Report::new(&prop, "quick");
+            rep.write_evidence = false;
+            crate::realbin::symlink_target_probe(&mut rep);
+            match rep.violations.first() { Some(x) => { println!("{}", x.summary); println!("VIOLATION property={} replay={}", prop, path); 1 }, None => 0 }
+        },
         "rulesio" =>
         {
             let mut rep = Report::new(&prop, "quick");
